@@ -303,7 +303,24 @@ func (p *parser) parsePermissionExpressions(finalToken itemType, depth int) *ast
 			expressionNestingMaxDepth)
 		return nil
 	}
-	var root *ast.SubjectSetRewrite
+	var (
+		root *ast.SubjectSetRewrite
+		// orNode is the "||" chain at the top of the expression and andNode the
+		// "&&" chain that is currently being extended. "&&" binds tighter than
+		// "||", so an "&&" that follows an "||" chain only takes the last
+		// operand of that chain.
+		orNode, andNode *ast.SubjectSetRewrite
+	)
+	addOperand := func(child ast.Child) {
+		switch {
+		case andNode != nil:
+			andNode.Children = append(andNode.Children, child)
+		case orNode != nil:
+			orNode.Children = append(orNode.Children, child)
+		default:
+			root = addChild(root, child)
+		}
+	}
 
 	// We only expect an expression in the beginning and after a binary
 	// operator.
@@ -321,7 +338,7 @@ func (p *parser) parsePermissionExpressions(finalToken itemType, depth int) *ast
 			if child == nil {
 				return nil
 			}
-			root = addChild(root, child)
+			addOperand(child)
 			expectExpression = false
 
 		case item.Typ == finalToken:
@@ -341,11 +358,32 @@ func (p *parser) parsePermissionExpressions(finalToken itemType, depth int) *ast
 			if root == nil {
 				return nil
 			}
-			newRoot := &ast.SubjectSetRewrite{
-				Operation: setOperation(item.Typ),
-				Children:  []ast.Child{root},
+			switch op := setOperation(item.Typ); {
+			case op == ast.OperatorOr:
+				if orNode == nil {
+					orNode = &ast.SubjectSetRewrite{
+						Operation: ast.OperatorOr,
+						Children:  []ast.Child{root},
+					}
+					root = orNode
+				}
+				andNode = nil
+			case andNode != nil:
+				// continue the current "&&" chain
+			case orNode == nil:
+				andNode = &ast.SubjectSetRewrite{
+					Operation: ast.OperatorAnd,
+					Children:  []ast.Child{root},
+				}
+				root = andNode
+			default:
+				last := len(orNode.Children) - 1
+				andNode = &ast.SubjectSetRewrite{
+					Operation: ast.OperatorAnd,
+					Children:  []ast.Child{orNode.Children[last]},
+				}
+				orNode.Children[last] = andNode
 			}
-			root = newRoot
 			expectExpression = true
 
 		// A "not" creates an AST node where the children are either a
@@ -356,7 +394,7 @@ func (p *parser) parsePermissionExpressions(finalToken itemType, depth int) *ast
 			if child == nil {
 				return nil
 			}
-			root = addChild(root, child)
+			addOperand(child)
 			expectExpression = false
 
 		default:
@@ -370,7 +408,7 @@ func (p *parser) parsePermissionExpressions(finalToken itemType, depth int) *ast
 			if child == nil {
 				return nil
 			}
-			root = addChild(root, child)
+			addOperand(child)
 			expectExpression = true
 		}
 	}
